@@ -343,6 +343,13 @@ func onRuleUpdate(rulesMap map[string]*Rule) (err error) {
 			voidRecycleSchedule(resource)
 		}
 	}
+	// A resource that had no rule can have a schedule all the same: the recycler may have taken a node from
+	// its queue after the rules had been cleared.
+	for resource := range validRulesMap {
+		if _, had := oldRules[resource]; !had {
+			voidRecycleSchedule(resource)
+		}
+	}
 	logging.Debug("[Outlier onRuleUpdate] Time statistics(ns) for updating all circuit breakers", "timeCost", util.CurrentTimeNano()-start)
 
 	LogRuleUpdate(validRulesMap)
